@@ -675,9 +675,12 @@ class RefResolver(object):
         Treats further dereferences as being performed underneath the
         given scope.
         """
-        self._scopes_stack.append(
-            self._urljoin_cache(self.resolution_scope, scope),
-        )
+        try:
+            joined = self._urljoin_cache(self.resolution_scope, scope)
+        except ValueError as exc:
+            # The scope is not parseable as a URI reference
+            raise exceptions.RefResolutionError(exc)
+        self._scopes_stack.append(joined)
 
     def pop_scope(self):
         """
@@ -749,7 +752,11 @@ class RefResolver(object):
         """
         Resolve the given reference.
         """
-        url = self._urljoin_cache(self.resolution_scope, ref)
+        try:
+            url = self._urljoin_cache(self.resolution_scope, ref)
+        except ValueError as exc:
+            # The reference is not parseable as a URI reference
+            raise exceptions.RefResolutionError(exc)
         return url, self._remote_cache(url)
 
     def resolve_from_url(self, url):
